@@ -562,3 +562,6 @@ var specStress = pbt.Register(&pbt.Spec[ConcCase]{
 
 func TestC04Stress(t *testing.T) { pbt.Check(t, specStress) }
 func TestReplay(t *testing.T)    { pbt.Replay(t) }
+
+// native fuzz target (engine E6, thorough tier)
+func FuzzC04Seq(f *testing.F) { pbt.Fuzz(f, specSeq) }
